@@ -223,6 +223,16 @@ func c19Run(c scriptCase) (out c19Out) {
 			add(rep.F("scribbling-changes-snapshots|"+name+"|"+e, "number of step snapshots differs"))
 			continue
 		}
+		// every State, at every callback, as it arrives: the same in both runs (a snapshot object
+		// handed to two callbacks would show the second one what the first one did to it)
+		if len(rec.digests) == len(other.digests) {
+			for i := range rec.digests {
+				if rec.digests[i] != other.digests[i] {
+					add(rep.F("scribbling-changes-later-states|"+name+"|"+e, fmt.Sprintf("the State handed to callback %d (%c) differs from the one a read-only debugger is handed there", i, traceAt(rec.trace, i))))
+					break
+				}
+			}
+		}
 		for i := range rec.steps {
 			if !eqStack(rec.steps[i].Stack, other.steps[i].Stack) || !eqStack(rec.steps[i].Alt, other.steps[i].Alt) {
 				add(rep.F("scribbling-changes-snapshots|"+name+"|"+e, fmt.Sprintf("snapshot %d: %s vs %s", i, fmtStack(rec.steps[i].Stack), fmtStack(other.steps[i].Stack))))
@@ -247,7 +257,7 @@ var _ interpreter.Debugger = (*recorder)(nil)
 
 func init() {
 	p := register(&Prop{ID: "C19", Level: "model_checking",
-		Rule: "explicit-state exploration of the real interpreter, each program executed five ways (no debugger, recording debugger, debugger that scribbles over every byte of every stack/cond/saved-stack item and every scalar of every *State it is handed, and both again through debug.NewDebugger's fan-out with all 14 attach points): (1) identical verdict and error text in all runs; (2) the callback trace is accepted by the lifecycle automaton Trace := E Step* [Abort] e Stk* (Y|N), Step := S O Stk* o Stk* [C c] Stk* s (an aborted step may stop anywhere; a completed one fires every hook, except that the step of a terminating OP_RETURN goes from O straight to the script change), and success/error callback matches the verdict; (3) the scribbling runs produce the same callback trace and the same AfterStep snapshot sequence as the recording run; (4) consecutive snapshots agree with the reference machine's effect of the instruction between them, and the stack items of every snapshot handed to the first 96 callbacks, kept by the debugger without copying, still read the same when the execution has finished; the snapshot handed to AfterScriptChange shows an empty alt stack (it does not survive a script boundary). Spaces: every byte string of length<=2 as locking script x 4 seed unlocking scripts x 2 eras (length 3 over a 48-symbol alphabet when thorough), every opcode x operand tuples of arity<=2 over 10 edge operands x 2 eras, the control-flow program search of C05 (depth 5/6), P2SH (pre-genesis, saved first stack) / limit / OP_RETURN templates, signature spends. states = distinct callback traces, transitions = callbacks checked",
+		Rule: "explicit-state exploration of the real interpreter, each program executed five ways (no debugger, recording debugger, debugger that scribbles over every byte of every stack/cond/saved-stack item and every scalar of every *State it is handed, and both again through debug.NewDebugger's fan-out with all 14 attach points): (1) identical verdict and error text in all runs; (2) the callback trace is accepted by the lifecycle automaton Trace := E Step* [Abort] e Stk* (Y|N), Step := S O Stk* o Stk* [C c] Stk* s (an aborted step may stop anywhere; a completed one fires every hook, except that the step of a terminating OP_RETURN goes from O straight to the script change), and success/error callback matches the verdict; (3) the scribbling runs produce the same callback trace, the same AfterStep snapshot sequence and - callback by callback - are handed the same State (stacks, condition stack, counters, indices; compared as it arrives) as the recording run; (4) consecutive snapshots agree with the reference machine's effect of the instruction between them, and the stack items of every snapshot handed to the first 96 callbacks, kept by the debugger without copying, still read the same when the execution has finished; the snapshot handed to AfterScriptChange shows an empty alt stack (it does not survive a script boundary). Spaces: every byte string of length<=2 as locking script x 4 seed unlocking scripts x 2 eras (length 3 over a 48-symbol alphabet when thorough), every opcode x operand tuples of arity<=2 over 10 edge operands x 2 eras, the control-flow program search of C05 (depth 5/6), P2SH (pre-genesis, saved first stack) / limit / OP_RETURN templates, signature spends. states = distinct callback traces, transitions = callbacks checked",
 	})
 	NewSpace(p, "exec", c19Check)
 	spState := NewSpace(p, "resume", c19StateCheck)
@@ -476,4 +486,11 @@ func c19StateCheck(c scriptCase) (fs []rep.Finding) {
 		}
 	}
 	return
+}
+
+func traceAt(t []byte, i int) byte {
+	if i >= 0 && i < len(t) {
+		return t[i]
+	}
+	return '?'
 }
